@@ -257,6 +257,6 @@ example : ∃ s1 fl1 s2 fl2,
 
 /-- a reachable state with a retained message: CONNECT, push a retained PUBLISH, DeviceData -/
 example : ∃ s, Reachable2 exConfig s ∧ alookup "t" s.datalog.retained = some exPubR :=
-  ⟨_, ⟨[(.connect exSpecWill, []), (.push 0 (.publish exPubR), []), (.event 0 .deviceData, [.matches []])], rfl⟩, rfl⟩
+  ⟨_, Reachable2.ofX [(.connect exSpecWill, []), (.push 0 (.publish exPubR), []), (.event 0 .deviceData, [.matches []])] rfl, rfl⟩
 
 end C15
